@@ -337,9 +337,14 @@ def gen_universe(rng, n_roots=None, max_levels=3, rich=True, force_falsy=False):
             f = FieldSpec(f"m{'xyz'[mi]}{j}", "Prop", ptype=pt, kw_only=True, has_default=True, default=gen_value(rng, pt, enum_name))
             f.compare = rng.random() < 0.8
             mown.append(f)
+        if future and rng.random() < 0.5:
+            # a child field inherited through the second base (postponed annotations: it may name any class)
+            role = rng.choice(["Opt", "Tup"])
+            cf = FieldSpec(f"m{'xyz'[mi]}c", role, child_types=(rng.choice([p[0] for p in plan]),), kw_only=True, has_default=True)
+            mown.append(cf)
         classes.append(ClassSpec(mname, None, mown, falsy=False))
     plan = [(m, None) for m in mixin_names] + plan
-    fname_pool = ["a", "ab", "b", "child", "items", "x", "xs", "y", "z", "left", "right", "body", "name", "value", "t", "n"]
+    fname_pool = ["a", "ab", "b", "child", "items", "x", "xs", "y", "z", "left", "right", "body", "name", "value", "t", "n", "_k", "_"]
     for idx, (cname, base) in enumerate(plan):
         if cname in mixin_names:
             continue
@@ -421,6 +426,22 @@ def gen_universe(rng, n_roots=None, max_levels=3, rich=True, force_falsy=False):
         if mix and base is not None and rng.random() < 0.4:
             own = []      # `class C(A, M): pass`: everything is inherited, part of it through the second base
         classes.append(ClassSpec(cname, base, own, falsy=rng.random() < 0.15, slots=False, mixins=mix))
+    # a "permuted sibling": same field NAMES as an existing root class, other declaration order and other kinds
+    # (single <-> tuple child, flags flipped): nothing specialised per class may be shared on the basis of field names
+    if rich and rng.random() < 0.4:
+        roots_ = [c for c in classes if c.base is None and not c.mixins and len(c.own) >= 2 and c.name not in mixin_names]
+        if roots_:
+            src = rng.choice(roots_)
+            own2 = []
+            for f in reversed(src.own):
+                if f.role == "Prop":
+                    g = FieldSpec(f.name, "Prop", ptype=f.ptype, compare=not f.compare, init=True, kw_only=True,
+                                  has_default=True, default=f.default if f.default is not None else gen_value(rng, f.ptype, enum_name))
+                else:
+                    role2 = {"One": "Tup", "Opt": "Tup", "Tup": "Opt"}[f.role]
+                    g = FieldSpec(f.name, role2, child_types=f.child_types, kw_only=True, has_default=True)
+                own2.append(g)
+            classes.append(ClassSpec("P" + tag, None, own2, falsy=False))
     u = Universe(classes, enum_name, future, uid)
     if force_falsy:
         # make sure some single-child field can hold a node that is falsy in a boolean context
